@@ -527,6 +527,7 @@ type Case struct {
 	Script   ScriptJ      `json:"script,omitempty"`
 	Trace    TraceJ       `json:"trace,omitempty"`
 	Note     string       `json:"note,omitempty"`
+	FDs      []int        `json:"fds,omitempty"` // open descriptors before and after the case
 }
 
 var scratch string
@@ -682,6 +683,16 @@ func (e *fsEnv) straysState() string {
 	return "ok"
 }
 
+// countFDs: open file descriptors of this process (a Create that forgets to
+// close its temp file on some path shows up here).
+func countFDs() int {
+	ents, err := os.ReadDir("/proc/self/fd")
+	if err != nil {
+		return -1
+	}
+	return len(ents)
+}
+
 func (e *fsEnv) ls() Ls { return listDir(e.dir, e.strayTop, e.strayTmp) }
 
 func (e *fsEnv) close() { os.RemoveAll(e.dir) }
@@ -692,6 +703,7 @@ func (g *gen) runFsOps(stream string, ops []Op, strays bool) {
 	defer e.close()
 	tab := newTab()
 	c := &Case{Stream: stream, Kind: "fs"}
+	fds0 := countFDs()
 	for i := range ops {
 		op := &ops[i]
 		var ob Obs
@@ -741,6 +753,7 @@ func (g *gen) runFsOps(stream string, ops []Op, strays bool) {
 	c.Ops = ops
 	c.Strays = e.straysState()
 	c.Tab = tab.rows
+	c.FDs = []int{fds0, countFDs()}
 	g.emit(c)
 }
 
